@@ -440,6 +440,24 @@ def truthiness_rule(an: Analysis, rep, rule: str, entries, fields, what=None):
                     operands = t.values if isinstance(t, ast.BoolOp) else [t]
                 elif isinstance(node, ast.UnaryOp) and isinstance(node.op, ast.Not):
                     operands = [node.operand]
+                elif isinstance(node, ast.Call) and isinstance(node.func, ast.Name) and node.func.id == "filter" and len(node.args) == 2 \
+                        and isinstance(node.args[0], ast.Constant) and node.args[0].value is None:
+                    # filter(None, xs) keeps the truthy members of xs
+                    xs = node.args[1]
+                    operands = [e for e in xs.elts if not isinstance(e, ast.Starred)] if isinstance(xs, (ast.Tuple, ast.List)) else []
+                    if not operands:
+                        n += 1
+                        hit = None
+                        for a in it.elements(it.value_at(xs), None) if hasattr(it, "elements") else ():
+                            if a[0] == "src" and a[2]:
+                                attrs = [st[1] for st in a[2] if st[0] == "a"]
+                                if attrs and attrs[-1] in names and a[2][-1][0] in ("a", "nt", "t"):
+                                    hit = attrs[-1]
+                        if hit:
+                            rep.add(rule, f"{f.qual}::truthiness of the members of `{norm_src(xs)}`", False, loc(f.module, node),
+                                    f"`{norm_src(node)}` keeps the truthy members of `{norm_src(xs)}`, which can hold {what or 'a value of `' + hit + '`'}: the falsy value is dropped like an absent one", config=entry)
+                elif isinstance(node, (ast.ListComp, ast.GeneratorExp, ast.SetComp, ast.DictComp)):
+                    operands = [c for g in node.generators for c in g.ifs]
                 for x in operands:
                     while isinstance(x, ast.Call) and isinstance(x.func, ast.Name) and x.func.id == "cast" and len(x.args) == 2:
                         x = x.args[1]  # typing.cast(T, v) is v
